@@ -33,8 +33,8 @@ PLANS = {
                 quick=[("lag", 200, ""), ("rand", 100, ""), ("overflow", 1, "extra=6"), ("ovflate", 2, ""), ("ovfstall", 1, "")],
                 thorough=[("lag", 5000, ""), ("rand", 3000, ""), ("overflow", 3, "extra=1+6+4000"), ("ovflate", 12, ""), ("ovfstall", 6, "")]),
     "C11": dict(engine=INO, mc=["MC_Events"],
-                quick=[("moves", 300, "")],
-                thorough=[("moves", 8000, ""), ("moves", 1000, "depth=80")]),
+                quick=[("moves", 300, ""), ("parmoves", 60, ""), ("multix", 20, "")],
+                thorough=[("moves", 8000, ""), ("moves", 1000, "depth=80"), ("parmoves", 1500, ""), ("multix", 300, "")]),
     "C12": dict(engine=INO, mc=["MC_WatchSet"],
                 quick=[("wsexh", 700, "k=3"), ("cycle", 6, "n=150"), ("wsrand", 150, ""), ("repoint", 60, ""), ("endwatch", 80, "")],
                 thorough=[("wsexh", 2744, "k=3"), ("wsexh", 12000, "k=4"), ("cycle", 50, "n=1000"), ("wsrand", 5000, ""), ("repoint", 600, ""), ("endwatch", 2000, "")]),
@@ -42,8 +42,8 @@ PLANS = {
                 quick=[("close", 200, ""), ("newclose", 3, "n=300"), ("lag", 60, ""), ("ovfstall", 1, "mode=close")],
                 thorough=[("close", 5000, ""), ("newclose", 10, "n=1000"), ("lag", 1500, "")]),
     "C14": dict(engine=INO, mc=["MC_Multi"],
-                quick=[("multi", 100, ""), ("absorb", 40, "")],
-                thorough=[("multi", 2000, ""), ("absorb", 400, "")]),
+                quick=[("multi", 100, ""), ("multix", 60, ""), ("absorb", 40, "")],
+                thorough=[("multi", 2000, ""), ("multix", 1500, ""), ("absorb", 400, "")]),
 }
 
 PLANS["C15"] = dict(engine="ops")
